@@ -838,9 +838,15 @@ where
 	let key_id = block_fees.key_id();
 	let parent_key_id = wallet.parent_key_id();
 
+	// A requested key id is only reused for the coinbase candidate it already
+	// names (a miner re-requesting its still-unconfirmed reward); any other
+	// existing record must never be overwritten
 	let key_id = match key_id {
 		Some(key_id) => match keys::retrieve_existing_key(wallet, key_id, None) {
-			Ok(k) => k.0,
+			Ok(k) => match wallet.get(&k.0, &None) {
+				Ok(o) if o.is_coinbase && o.status == OutputStatus::Unconfirmed => k.0,
+				_ => keys::next_available_key(wallet, keychain_mask)?,
+			},
 			Err(_) => keys::next_available_key(wallet, keychain_mask)?,
 		},
 		None => keys::next_available_key(wallet, keychain_mask)?,
